@@ -287,4 +287,87 @@ theorem canonChars_render {K : CharClass} (hK : CharsOK K) (t : Tree) (ht : Tree
   simp only [canonChars, e, canonLoop, CanonProof.after, canonTree]
   simp
 
+theorem repr_digits (n : Nat) : ∀ c ∈ (Nat.repr n).toList, c.isDigit = true := by
+  intro c hc
+  have : (Nat.repr n).toList = Nat.toDigits 10 n := by simp [Nat.repr]
+  rw [this] at hc
+  exact Nat.isDigit_of_mem_toDigits (by decide) (by decide) hc
+
+/-- canonical names `var<n>` are valid identifiers -/
+theorem canonName_valid {K : CharClass} (hK : CharsOK K) (n : Nat) : ValidId K (canonName n) := by
+  refine ⟨by simp [canonName], ?_⟩
+  intro c hc
+  simp only [canonName, List.mem_append] at hc
+  rcases hc with hc | hc
+  · have : c ∈ ['v', 'a', 'r'] := by simpa using hc
+    exact letter_name hK (by simp at this ⊢; rcases this with rfl | rfl | rfl <;> simp)
+  · simp [isName, hK.digits c (repr_digits n c hc)]
+
+theorem canonVar_valid {K : CharClass} (hK : CharsOK K) (v : Name) (st : CanonT) (hst : CanonInv st) :
+    ValidId K (canonVar v st).1 := by
+  unfold canonVar
+  cases h : st.map.lookup v with
+  | some cn =>
+    obtain ⟨j, _, rfl⟩ := hst.bound v cn (lookup_mem' _ h)
+    exact canonName_valid hK j
+  | none => exact canonName_valid hK _
+
+/-- the canonical form of a tree over valid identifiers is a tree over valid identifiers -/
+theorem canonTreeAux_treeOK {K : CharClass} (hK : CharsOK K) : ∀ (t : Tree) (st : CanonT), CanonInv st →
+    TreeOK K t ∧ PropNamesOK t → TreeOK K (canonTreeAux t st).1 ∧ PropNamesOK (canonTreeAux t st).1 := by
+  intro t
+  induction t with
+  | atom a =>
+    intro st hst h
+    cases a with
+    | var v => simpa [canonTreeAux, TreeOK, PropNamesOK] using canonVar_valid hK v st hst
+    | prop n => simpa [canonTreeAux] using h
+    | tt => simp [canonTreeAux, TreeOK, PropNamesOK]
+    | ff => simp [canonTreeAux, TreeOK, PropNamesOK]
+    | wild w => simpa [canonTreeAux] using h
+  | un o c ih =>
+    intro st hst h
+    simpa [canonTreeAux, TreeOK, PropNamesOK] using ih st hst (by simpa [TreeOK, PropNamesOK] using h)
+  | bin o l r ihl ihr =>
+    intro st hst h
+    simp only [TreeOK, PropNamesOK] at h
+    have a := ihl st hst ⟨h.1.1, h.2.1⟩
+    have b := ihr _ (canonTreeAux_inv l st hst) ⟨h.1.2, h.2.2⟩
+    simp only [canonTreeAux, TreeOK, PropNamesOK]
+    exact ⟨⟨a.1, b.1⟩, a.2, b.2⟩
+  | hyb o v d c ih =>
+    intro st hst h
+    simp only [TreeOK, PropNamesOK] at h
+    obtain ⟨⟨hv, hd, hc⟩, hp⟩ := h
+    by_cases hj : o = .jump
+    · subst hj
+      have a := ih _ (canonVar_inv hst v) ⟨hc, hp⟩
+      simp only [canonTreeAux, if_true, TreeOK, PropNamesOK]
+      exact ⟨⟨canonVar_valid hK v st hst, hd, a.1⟩, a.2⟩
+    · have a := ih _ (hst.insert v) ⟨hc, hp⟩
+      simp only [canonTreeAux, hj, if_false, TreeOK, PropNamesOK]
+      exact ⟨⟨canonName_valid hK _, hd, a.1⟩, a.2⟩
+
+/-- identifiers are valid for some character class satisfying the assumed facts (true of every tree the parsers,
+preprocessing or the constructors with valid identifiers produce) -/
+def TreeValid (t : Tree) : Prop := ∃ C : CharClass, CharsOK C ∧ TreeOK C t ∧ PropNamesOK t
+
+theorem TreeValid.un {o : UnOp} {c : Tree} (h : TreeValid (.un o c)) : TreeValid c := by
+  obtain ⟨C, h1, h2, h3⟩ := h; exact ⟨C, h1, by simpa [TreeOK] using h2, by simpa [PropNamesOK] using h3⟩
+
+theorem TreeValid.binl {o : BinOp} {l r : Tree} (h : TreeValid (.bin o l r)) : TreeValid l := by
+  obtain ⟨C, h1, h2, h3⟩ := h
+  simp only [TreeOK, PropNamesOK] at h2 h3
+  exact ⟨C, h1, h2.1, h3.1⟩
+
+theorem TreeValid.binr {o : BinOp} {l r : Tree} (h : TreeValid (.bin o l r)) : TreeValid r := by
+  obtain ⟨C, h1, h2, h3⟩ := h
+  simp only [TreeOK, PropNamesOK] at h2 h3
+  exact ⟨C, h1, h2.2, h3.2⟩
+
+theorem TreeValid.hyb {o : HybOp} {v : Name} {d : Option Name} {c : Tree} (h : TreeValid (.hyb o v d c)) : TreeValid c := by
+  obtain ⟨C, h1, h2, h3⟩ := h
+  simp only [TreeOK, PropNamesOK] at h2 h3
+  exact ⟨C, h1, h2.2.2, h3⟩
+
 end Hctl
